@@ -656,7 +656,7 @@ class Workspace(AbstractContextManager):
         parent = entity.parent
 
         if hasattr(entity, "children"):
-            for child in entity.children:
+            for child in list(entity.children):
                 self.remove_entity(child)
 
         parent.remove_children([entity])
